@@ -20,7 +20,7 @@ from typing import List, Optional, Tuple
 from .convsites import conversion_sites
 from .report import Ctx
 from .srcmodel import call_leaf, calls_in, const_str, contains, src, walk_local
-from .util import guard_chain, root_name, strip_not
+from .util import core_stmts, guard_chain, root_name, strip_not
 
 VALUE_NAMES = {"val", "value", "init_args"}
 
@@ -101,7 +101,7 @@ def run(ctx: Ctx) -> int:
     firsts = [x for x in ad.body if isinstance(x, ast.If) and "val == default" in ast.unparse(x.test)]
     first = firsts[0] if firsts else ad
     gad = ctx.cfg(ad)
-    ok = bool(firsts) and isinstance(first.body[0], ast.Return) and all(isinstance(b, (ast.Pass, ast.Expr)) for b in ad.body[: ad.body.index(first)])
+    ok = bool(firsts) and len(core_stmts(first.body)) == 1 and isinstance(core_stmts(first.body)[0], ast.Return) and all(isinstance(b, (ast.Pass, ast.Expr)) for b in ad.body[: ad.body.index(first)])
     ctx.oblige("C10.a", ok, first, "scalar values equal to the default are returned untouched" if ok else "the default early-out of adapt_typehints changed", fn=ad, construct="default early-out")
     inst = [x for x in walk_local(ad) if isinstance(x, ast.If) and ast.unparse(x.test) == "is_instance_or_supports_protocol(val, typehint)"]
     ok = bool(inst) and any(isinstance(r, ast.Return) and root_name(r.value) == "val" for r in walk_local(inst[0]))
